@@ -1,0 +1,244 @@
+//go:build verif
+
+// Contracts for package io (kvc). Comment-only file.
+package io
+
+//@ -- ------------------------------------------------------------------ Writer
+//@ spec (this *Writer) flags01() = (this.closed == 0 || this.closed == 1) && (this.closing == 0 || this.closing == 1) && (this.finalized == 0 || this.finalized == 1) && (this.initialized == 0 || this.initialized == 1)
+//@ spec (this *Writer) repW() = this.obs != nil && 1024 <= this.blockSize && this.blockSize <= 1073741824 && this.blockSize % 16 == 0 && 1 <= this.jobs && this.jobs <= 64 && len(this.buffers) == 2*this.jobs && 0 <= this.available && this.available <= this.jobs*this.blockSize && 0 <= this.nbInputBlocks && this.nbInputBlocks <= 63 && this.flags01() && (this.finalized == 1 ==> this.available == 0 && this.closing == 1) && 0 - 1 <= this.blockID
+//@ spec (this *Writer) buffersOK() = forall k :: 0 <= k && k < this.jobs ==> (len(this.buffers[k].Buf) == 0 || len(this.buffers[k].Buf) >= this.blockSize) && (k*this.blockSize <= this.available ==> len(this.buffers[k].Buf) >= this.blockSize)
+
+//@ func (*encodingTask) encode
+//@   mode int
+//@   props C07 C08 C17 C01
+//@   opt calls may-panic
+//@   opt panics caught
+//@   requires this.processedBlockID != nil && res != nil && this.wg != nil && this.iBuffer != nil && this.oBuffer != nil && this.ctx != nil && this.obs != nil && this.iBuffer != this.oBuffer
+//@   requires this.blockLength >= 1 && this.blockLength <= len(this.iBuffer.Buf) && this.blockLength <= 1073741824 && this.currentBlockID >= 1
+//@   requires res.err == nil
+//@   ensures res.err != nil ==> *this.processedBlockID == 0 - 1                                                    #error-cancels
+//@   ensures res.err == nil ==> (old(*this.processedBlockID) == this.currentBlockID - 1 && *this.processedBlockID == this.currentBlockID) || (old(*this.processedBlockID) == 0 - 1 && *this.processedBlockID == 0 - 1)    #token-moves-by-one
+//@   ensures len(this.iBuffer.Buf) >= old(len(this.iBuffer.Buf))                                                   #input-buffer-kept
+//@   ensures this.obs.wbits >= old(this.obs.wbits)                                                                 #bits-monotone
+//@   ensures old(this.obs.ofailed) ==> this.obs.ofailed
+//@   ensures this.obs.oclosed == old(this.obs.oclosed)
+//@   ghostdef res.err == nil && *this.processedBlockID == this.currentBlockID ==> this.obs.plain == old(this.obs.plain) + this.blockLength
+//@   ghostdef !(res.err == nil && *this.processedBlockID == this.currentBlockID) ==> this.obs.plain == old(this.obs.plain)
+//@   modifies res.err, *this.processedBlockID, this.blockTransformType, this.blockEntropyType, this.iBuffer.Buf, this.oBuffer.Buf, this.ctx[*], this.listeners[*], this.obs.wbits, this.obs.ofailed, this.obs.tapeV, this.obs.tapeW, this.obs.plain, "A!Int"
+//@   loop 1 invariant res.err == nil && *this.processedBlockID == old(*this.processedBlockID) && this.obs.wbits == old(this.obs.wbits) && (this.obs.ofailed <==> old(this.obs.ofailed)) && this.obs.oclosed == old(this.obs.oclosed) && len(this.iBuffer.Buf) >= old(len(this.iBuffer.Buf))
+//@   loop 2 invariant res.err == nil && *this.processedBlockID == old(*this.processedBlockID) && old(*this.processedBlockID) == this.currentBlockID - 1 && this.obs.wbits >= old(this.obs.wbits) && (old(this.obs.ofailed) ==> this.obs.ofailed) && this.obs.oclosed == old(this.obs.oclosed) && len(this.iBuffer.Buf) >= old(len(this.iBuffer.Buf))
+
+//@ func (*Writer) writeHeader
+//@   mode int
+//@   props C01 C10 C17 C08
+//@   requires this.repW()
+//@   ensures this.headless || old(this.initialized) != 0 ==> result == nil && this.obs.wbits == old(this.obs.wbits) && len(this.obs.tapeV) == old(len(this.obs.tapeV))      #only-once
+//@   ensures !this.headless ==> this.initialized == 1
+//@   ensures this.obs.wbits >= old(this.obs.wbits)                              #bits-monotone
+//@   ensures this.headless ==> this.initialized == old(this.initialized)
+//@   ensures old(this.obs.ofailed) ==> this.obs.ofailed
+//@   ensures this.obs.oclosed == old(this.obs.oclosed) && this.obs.plain == old(this.obs.plain)
+//@   panics this.obs.ofailed || old(this.obs.oclosed)                           #bitstream-may-panic
+//@   panics !this.headless && old(this.initialized) == 0
+//@   modifies this.initialized, this.obs.wbits, this.obs.ofailed, this.obs.tapeV, this.obs.tapeW
+
+//@ func (*Writer) processBlock
+//@   mode int
+//@   props C01 C04 C07 C08 C17
+//@   requires this.repW() && this.buffersOK() && this.closed == 0
+//@   assume this.blockID <= 2000000000
+//@   ensures this.repW()                                                                                           #rep
+//@   ensures result == nil ==> this.available == 0 && this.obs.plain == old(this.obs.plain) + old(this.available)  #all-pending-emitted
+//@   ensures result == nil ==> this.buffersOK()
+//@   ensures result == nil ==> this.blockID != 0 - 1 && old(this.blockID) != 0 - 1                                 #success-means-not-cancelled
+//@   ensures this.obs.wbits >= old(this.obs.wbits)                                                                 #bits-monotone
+//@   ensures this.closed == old(this.closed) && this.closing == old(this.closing) && this.finalized == old(this.finalized)
+//@   ensures old(this.obs.ofailed) ==> this.obs.ofailed
+//@   ensures this.obs.oclosed == old(this.obs.oclosed)
+//@   panics this.obs.ofailed || old(this.obs.oclosed)                                                              #header-write-may-panic
+//@   modifies this.available, this.blockID, this.initialized, this.buffers[*], this.obs.wbits, this.obs.ofailed, this.obs.tapeV, this.obs.tapeW, this.obs.plain, "A!Int"
+//@   loop 1 invariant this.repW() && 0 <= taskID && taskID <= nbTasks && nbTasks <= this.jobs && len(results) == nbTasks && len(jobsPerTask) >= nbTasks && tasks == taskID && this.closed == 0 && this.obs.oclosed == old(this.obs.oclosed) && (old(this.obs.ofailed) ==> this.obs.ofailed)
+//@   loop 1 invariant this.obs.wbits >= old(this.obs.wbits) && this.available + off == old(this.available) && 0 <= off && firstID == old(this.blockID) && firstID != 0 - 1 && this.available <= (nbTasks - taskID)*this.blockSize && (off == taskID*this.blockSize || this.available == 0) && this.closing == old(this.closing) && this.finalized == old(this.finalized) && this.initialized == loopentry(this.initialized)
+//@   loop 1 invariant forall k :: 0 <= k && k < this.jobs ==> (len(this.buffers[k].Buf) == 0 || len(this.buffers[k].Buf) >= this.blockSize) && (k*this.blockSize <= old(this.available) ==> len(this.buffers[k].Buf) >= this.blockSize)
+//@   loop 1 invariant forall k :: taskID <= k && k < nbTasks ==> results[k].err == nil
+//@   loop 1 invariant (forall k :: 0 <= k && k < taskID ==> results[k].err == nil) ==> this.blockID == firstID + taskID && this.obs.plain == old(this.obs.plain) + off
+//@   loop 1 invariant forall k :: 0 <= k && k < taskID ==> (results[k].err != nil ==> this.blockID == 0 - 1)
+//@   loop 1 modifies this.available, this.blockID, results[*], listeners[*], this.buffers[*], this.obs.wbits, this.obs.ofailed, this.obs.tapeV, this.obs.tapeW, this.obs.plain, "A!Int"
+//@   loop 1 decreases nbTasks - taskID
+//@   loop 2 invariant true
+//@   loop 2 modifies copyCtx[*]
+//@   loop 3 invariant forall k :: 0 <= k && k <= rangeindex ==> results[k].err == nil
+//@   loop 3 invariant 0 - 1 <= rangeindex && rangeindex <= len(results)
+
+//@ func (*Writer) GetWritten
+//@   mode int
+//@   props C17
+//@   requires this.obs != nil && 0 <= this.obs.wbits && this.obs.wbits <= 4611686018427387904
+//@   ensures 8*result >= this.obs.wbits && 8*result < this.obs.wbits + 8       #bytes-of-bits
+//@   modifies nothing
+
+//@ func (*Writer) Write
+//@   mode int
+//@   props C01 C04 C06 C08 C17
+//@   requires this.repW() && (this.closed == 0 ==> this.buffersOK()) && (this.closed == 0 && this.closing == 0 ==> this.available < this.jobs*this.blockSize)
+//@   assume this.blockID <= 2000000000
+//@   ensures 0 <= result0 && result0 <= len(block)                                                                 #count-range
+//@   ensures result1 == nil ==> result0 == len(block)                                                              #full-length-on-success
+//@   ensures old(this.closed) == 1 || old(this.closing) == 1 ==> result0 == 0 && result1 != nil && this.available == old(this.available) && this.obs.wbits == old(this.obs.wbits) && this.obs.plain == old(this.obs.plain) && this.blockID == old(this.blockID)    #refused-after-close
+//@   ensures this.repW() && this.closed == old(this.closed) && this.closing == old(this.closing) && this.finalized == old(this.finalized)      #rep
+//@   ensures result1 == nil ==> this.available < this.jobs*this.blockSize                                         #buffers-never-left-full
+//@   ensures result1 == nil ==> this.buffersOK() && this.obs.plain + this.available == old(this.obs.plain + this.available) + len(block)    #accounting
+//@   ensures old(this.obs.ofailed) ==> this.obs.ofailed
+//@   ensures this.obs.wbits >= old(this.obs.wbits)                                                                 #bits-monotone
+//@   panics this.obs.ofailed || old(this.obs.oclosed)                                                              #header-write-may-panic
+//@   modifies this.available, this.blockID, this.initialized, this.buffers[*], this.obs.wbits, this.obs.ofailed, this.obs.tapeV, this.obs.tapeW, this.obs.plain, "A!Int"
+//@   loop 1 invariant this.obs.wbits >= old(this.obs.wbits) && this.repW() && this.buffersOK() && this.closed == 0 && this.closing == 0 && this.finalized == old(this.finalized) && off + remaining == len(block) && 0 <= remaining && 0 <= off
+//@   loop 1 invariant this.available < this.jobs*this.blockSize && this.available / this.blockSize < this.jobs && len(this.buffers[this.available / this.blockSize].Buf) >= this.blockSize
+//@   loop 1 invariant this.obs.plain + this.available == old(this.obs.plain + this.available) + off && (old(this.obs.ofailed) ==> this.obs.ofailed) && this.obs.oclosed == old(this.obs.oclosed)
+//@   loop 1 modifies this.available, this.blockID, this.initialized, this.buffers[*], this.obs.wbits, this.obs.ofailed, this.obs.tapeV, this.obs.tapeW, this.obs.plain, "A!Int"
+//@   loop 1 assume this.blockID <= 2000000000
+//@   loop 1 decreases remaining
+
+//@ ghost Closer cclosed bool
+//@ iface io.Closer Close() (err)
+//@   ensures err == nil ==> this.cclosed
+//@   modifies this.cclosed
+
+//@ func (*Writer) Close
+//@   mode int
+//@   props C01 C08 C09 C17
+//@   requires this.repW() && (this.closed == 0 ==> this.buffersOK())
+//@   assume this.blockID <= 2000000000
+//@   ensures old(this.closed) == 1 ==> result == nil && this.closed == 1 && this.available == old(this.available) && this.obs.wbits == old(this.obs.wbits) && this.obs.plain == old(this.obs.plain) && this.obs.oclosed == old(this.obs.oclosed)     #idempotent
+//@   ensures result == nil ==> this.closed == 1                                                                              #closed-on-success
+//@   ensures result == nil && old(this.closed) == 0 ==> this.obs.oclosed && this.available == 0 && this.obs.plain == old(this.obs.plain) + old(this.available)     #success-means-complete
+//@   ensures result == nil && old(this.closed) == 0 && old(this.finalized) == 0 ==> this.obs.wbits >= old(this.obs.wbits) + 8 && this.obs.tapeV[len(this.obs.tapeV) - 2] == 0 && this.obs.tapeW[len(this.obs.tapeW) - 2] == 5 && this.obs.tapeV[len(this.obs.tapeV) - 1] == 0 && this.obs.tapeW[len(this.obs.tapeW) - 1] == 3      #end-marker-last
+//@   ensures result != nil ==> this.closed == 0                                                                              #retry-possible
+//@   ensures this.repW()
+//@   ensures old(this.obs.ofailed) ==> this.obs.ofailed
+//@   panics this.obs.ofailed || old(this.obs.oclosed)                                                                        #bitstream-may-panic
+//@   modifies this.closed, this.closing, this.finalized, this.streamCloser, this.streamCloser.cclosed, this.available, this.blockID, this.initialized, this.buffers[*], this.obs.wbits, this.obs.ofailed, this.obs.oclosed, this.obs.tapeV, this.obs.tapeW, this.obs.plain, "A!Int"
+//@   loop 1 invariant this.repW() && this.closed == 1 && 0 - 1 <= rangeindex && rangeindex <= len(this.buffers)
+//@   loop 1 modifies this.buffers[*]
+
+//@ -- ------------------------------------------------------------------ Reader
+//@ spec (this *Reader) repR0() = this.ibs != nil && this.ctx != nil && 1 <= this.jobs && this.jobs <= 64 && len(this.buffers) == 2*this.jobs && (this.initialized == 0 || this.initialized == 1) && 0 <= this.nbInputBlocks && this.nbInputBlocks <= 63 && 0 - 1 <= this.blockID && 0 <= this.available && 0 <= this.consumed
+//@ spec (this *Reader) repR() = this.repR0() && 1024 <= this.blockSize && this.blockSize <= 1073741824 && this.bufferThreshold == this.blockSize && 1 <= this.jobs && this.jobs <= 64 && len(this.buffers) == 2*this.jobs && 0 <= this.available && 0 <= this.consumed && this.consumed + this.available <= this.jobs*this.blockSize && 0 <= this.nbInputBlocks && this.nbInputBlocks <= 63 && 0 - 1 <= this.blockID && this.ctx != nil
+//@ spec (this *Reader) filledOK() = forall k :: 0 <= k && k < this.jobs && k*this.blockSize < this.consumed + this.available ==> len(this.buffers[k].Buf) >= this.blockSize
+
+//@ func (*decodingTask) decode
+//@   mode int
+//@   props C02 C03 C05 C07 C08 C09 C11
+//@   opt calls may-panic
+//@   opt panics caught
+//@   requires this.processedBlockID != nil && res != nil && this.wg != nil && this.iBuffer != nil && this.oBuffer != nil && this.ctx != nil && this.ibs != nil && this.currentBlockID >= 1 && this.iBuffer != this.oBuffer
+//@   requires this.blockLength >= 1024 && this.blockLength <= 1207959552
+//@   requires res.err == nil && res.decoded == 0 && !res.skipped
+//@   requires has(this.ctx, "from") ==> istype(this.ctx["from"], "int")
+//@   requires has(this.ctx, "to") ==> istype(this.ctx["to"], "int")
+//@   ensures res.err != nil ==> *this.processedBlockID == 0 - 1                                                    #error-cancels
+//@   ensures res.err == nil && !res.skipped && res.decoded == 0 ==> *this.processedBlockID == 0 - 1                 #end-of-stream-cancels
+//@   ensures res.err == nil && (res.skipped || res.decoded > 0) ==> old(*this.processedBlockID) == this.currentBlockID - 1 && *this.processedBlockID == this.currentBlockID     #token-moves-by-one
+//@   ensures old(*this.processedBlockID) == 0 - 1 ==> *this.processedBlockID == 0 - 1 && res.err == nil && res.decoded == 0 && !res.skipped && this.ibs.rbitsI == old(this.ibs.rbitsI)     #cancelled-does-nothing
+//@   ensures 0 <= res.decoded && res.decoded <= len(res.data) && res.data == this.iBuffer.Buf && res.blockID == this.currentBlockID      #result-fields
+//@   ensures res.skipped ==> res.decoded == 0 && res.err == nil                                                     #skipped-not-decoded
+//@   ensures res.skipped ==> (has(this.ctx, "from") && this.currentBlockID < unbox(this.ctx["from"], "int")) || (has(this.ctx, "to") && this.currentBlockID >= unbox(this.ctx["to"], "int"))    #skipped-only-outside-range
+//@   ensures res.err == nil && res.decoded > 0 ==> !(has(this.ctx, "from") && this.currentBlockID < unbox(this.ctx["from"], "int")) && !(has(this.ctx, "to") && this.currentBlockID >= unbox(this.ctx["to"], "int"))    #decoded-only-inside-range
+//@   ensures len(this.iBuffer.Buf) >= old(len(this.iBuffer.Buf))
+//@   ensures this.ibs.rbitsI >= old(this.ibs.rbitsI) && this.ibs.iclosed == old(this.ibs.iclosed)
+//@   modifies res.err, res.data, res.decoded, res.blockID, res.skipped, res.checksum, res.completionTime.all, *this.processedBlockID, this.blockTransformType, this.blockEntropyType, this.iBuffer.Buf, this.oBuffer.Buf, this.ctx[*], this.listeners[*], this.ibs.rbitsI, this.ibs.ieof, this.ibs.aligned, this.ibs.ipos, "A!Int"
+//@   loop 1 invariant res.err == nil && !res.skipped && res.decoded == 0 && !skipped && decoded == 0 && *this.processedBlockID == old(*this.processedBlockID) && this.ibs.rbitsI == old(this.ibs.rbitsI) && this.ibs.iclosed == old(this.ibs.iclosed) && this.iBuffer.Buf == old(this.iBuffer.Buf) && data == old(this.iBuffer.Buf)
+//@   loop 2 invariant res.err == nil && !res.skipped && res.decoded == 0 && !skipped && decoded == 0 && *this.processedBlockID == old(*this.processedBlockID) && old(*this.processedBlockID) == this.currentBlockID - 1 && this.ibs.rbitsI >= old(this.ibs.rbitsI) && this.ibs.iclosed == old(this.ibs.iclosed) && len(this.iBuffer.Buf) >= old(len(this.iBuffer.Buf)) && data == this.iBuffer.Buf
+
+//@ func (*Reader) processBlock
+//@   mode int
+//@   props C02 C03 C05 C07 C08 C09 C11
+//@   requires this.repR() && this.available == 0
+//@   requires has(this.ctx, "from") ==> istype(this.ctx["from"], "int")
+//@   requires has(this.ctx, "to") ==> istype(this.ctx["to"], "int")
+//@   assume this.blockID <= 2000000000
+//@   ensures this.repR() || (result1 != nil && this.available == 0)                                                #rep
+//@   ensures old(this.blockID) == 0 - 1 ==> result0 == 0 && result1 == nil && this.blockID == 0 - 1 && this.ibs.rbitsI == old(this.ibs.rbitsI)     #ended-stays-ended
+//@   ensures result1 != nil ==> this.blockID == 0 - 1                                                              #error-cancels
+//@   ensures result1 == nil && result0 == 0 ==> this.blockID == 0 - 1                                              #zero-means-ended
+//@   ensures 0 <= result0 && result0 <= this.jobs*this.blockSize                                                   #count-range
+//@   ensures this.consumed == 0                                                                                    #cursor-reset
+//@   ensures forall k :: 0 <= k && k < this.jobs && k*this.blockSize < result0 ==> len(this.buffers[k].Buf) >= this.blockSize     #filled-buffers-allocated
+//@   ensures this.available == old(this.available) && this.closed == old(this.closed)
+//@   atreturn decoded <= n*this.blockSize && 0 <= n && n <= nbTasks                                                #delivered-bytes-were-copied
+//@   modifies this.blockID, this.consumed, this.buffers[*], this.ibs.rbitsI, this.ibs.ieof, this.ibs.aligned, this.ibs.ipos, "A!Int", "A!Iface"
+//@   loop 1 invariant this.repR() && decoded == 0 && 1 <= nbTasks && nbTasks <= this.jobs && len(jobsPerTask) >= nbTasks && this.blockID != 0 - 1 && this.available == 0 && this.closed == old(this.closed) && bufSize >= this.blockSize && blkSize >= 1024 && blkSize <= 1207959552
+//@   loop 1 assume this.blockID <= 2000000000
+//@   loop 1 modifies this.blockID, this.buffers[*], this.ibs.rbitsI, this.ibs.ieof, this.ibs.aligned, this.ibs.ipos, "A!Int", "A!Iface"
+//@   loop 2 invariant this.repR() && 0 <= taskID && taskID <= nbTasks && nbTasks <= this.jobs && len(results) == nbTasks && len(jobsPerTask) >= nbTasks && firstID != 0 - 1 && this.available == 0 && this.closed == old(this.closed) && decoded == 0 && bufSize >= this.blockSize
+//@   loop 2 invariant forall k :: 0 <= k && k < taskID ==> 0 <= results[k].decoded && results[k].decoded <= len(results[k].data) && (results[k].skipped ==> results[k].decoded == 0 && results[k].err == nil) && len(this.buffers[k].Buf) >= this.blockSize
+//@   loop 2 invariant (forall k :: 0 <= k && k < taskID ==> results[k].err == nil && (results[k].skipped || results[k].decoded > 0)) ==> this.blockID == firstID + taskID
+//@   loop 2 invariant forall k :: 0 <= k && k < taskID ==> ((results[k].err != nil || (!results[k].skipped && results[k].decoded == 0)) ==> this.blockID == 0 - 1)
+//@   loop 2 modifies this.blockID, results[*], listeners[*], this.buffers[*], this.ibs.rbitsI, this.ibs.ieof, this.ibs.aligned, this.ibs.ipos, "A!Int"
+//@   loop 2 decreases nbTasks - taskID
+//@   loop 3 invariant forall key :: has(copyCtx, key) ==> has(this.ctx, key) && copyCtx[key] == this.ctx[key]
+//@   loop 3 invariant (has(copyCtx, "from") ==> has(this.ctx, "from") && copyCtx["from"] == this.ctx["from"]) && (has(copyCtx, "to") ==> has(this.ctx, "to") && copyCtx["to"] == this.ctx["to"])
+//@   loop 3 modifies copyCtx[*]
+//@   loop 4 invariant 0 - 1 <= rangeindex && rangeindex < len(results) && len(results) == nbTasks && 0 <= n && 0 <= skipped && skipped + n == rangeindex + 1 && 0 <= decoded && decoded <= n*this.blockSize
+//@   loop 4 invariant (forall k :: 0 <= k && k <= rangeindex ==> results[k].err == nil) && (skipped == rangeindex + 1 ==> (forall k :: 0 <= k && k <= rangeindex ==> results[k].skipped)) && (n > 0 && decoded == 0 ==> this.blockID == 0 - 1)
+//@   loop 4 modifies listeners[*], "A!Int"
+
+//@ func (*Reader) GetRead
+//@   mode int
+//@   props C17
+//@   requires this.ibs != nil && 0 <= this.ibs.rbitsI && this.ibs.rbitsI <= 4611686018427387904
+//@   ensures 8*result >= this.ibs.rbitsI && 8*result < this.ibs.rbitsI + 8       #bytes-of-bits
+//@   modifies nothing
+
+//@ func (*Reader) Close
+//@   mode int
+//@   props C17
+//@   requires this.ibs != nil && len(this.buffers) >= 0
+//@   ensures old(this.closed) == 1 ==> result == nil && this.closed == 1 && this.available == old(this.available) && this.ibs.iclosed == old(this.ibs.iclosed)      #idempotent
+//@   ensures this.closed == 1                                                   #closed-flag
+//@   ensures result == nil && old(this.closed) != 1 ==> this.ibs.iclosed && this.available == 0       #released
+//@   ensures this.ibs.rbitsI == old(this.ibs.rbitsI)                            #counter-kept
+//@   modifies this.closed, this.available, this.streamCloser, this.streamCloser.cclosed, this.buffers[*], this.ibs.iclosed
+//@   loop 1 invariant this.closed == 1 && this.available == 0 && 0 - 1 <= rangeindex && rangeindex < len(this.buffers) && this.ibs.iclosed && this.ibs.rbitsI == old(this.ibs.rbitsI)
+//@   loop 1 modifies this.buffers[*]
+
+//@ func (*Reader) Read
+//@   mode int
+//@   props C02 C03 C05 C06 C08 C09 C11 C17
+//@   requires this.repR0()
+//@   requires this.initialized == 1 || this.headless ==> this.repR() && this.filledOK()
+//@   requires this.initialized == 0 && !this.headless ==> this.available == 0 && this.consumed == 0
+//@   requires has(this.ctx, "from") ==> istype(this.ctx["from"], "int")
+//@   requires has(this.ctx, "to") ==> istype(this.ctx["to"], "int")
+//@   assume this.blockID <= 2000000000
+//@   ensures 0 <= result0 && result0 <= len(block)                                                                 #count-range
+//@   ensures old(this.closed) == 1 ==> result0 == 0 && result1 != nil && this.available == old(this.available) && this.consumed == old(this.consumed) && this.ibs.rbitsI == old(this.ibs.rbitsI) && this.blockID == old(this.blockID)     #refused-after-close
+//@   ensures result1 == nil && len(block) > 0 ==> result0 > 0                                                      #progress-or-error
+//@   ensures old(this.blockID) == 0 - 1 && old(this.available) == 0 && (old(this.initialized) == 1 || this.headless) && old(this.closed) != 1 ==> result0 == 0 && this.blockID == 0 - 1 && this.available == 0       #ended-stays-ended
+//@   ensures result1 == nil ==> this.repR() && this.filledOK()                                                     #rep
+//@   ensures this.repR0()                                                                                          #rep0
+//@   ensures this.closed == old(this.closed)
+//@   modifies this.initialized, this.available, this.consumed, this.blockID, this.blockSize, this.bufferThreshold, this.entropyType, this.transformType, this.outputSize, this.nbInputBlocks, this.hasher32, this.hasher64, this.buffers[*], this.ctx[*], block[*], this.ibs.rbitsI, this.ibs.ieof, this.ibs.aligned, this.ibs.ipos, "A!Int", "A!Iface", "MH!Int!Iface", "MV!Int!Iface"
+//@   loop 1 invariant this.repR() && this.filledOK() && off + remaining == len(block) && 0 <= remaining && 0 <= off && this.closed == old(this.closed) && (this.initialized == 1 || this.headless)
+//@   loop 1 invariant has(this.ctx, "from") ==> istype(this.ctx["from"], "int")
+//@   loop 1 invariant has(this.ctx, "to") ==> istype(this.ctx["to"], "int")
+//@   loop 1 invariant old(this.blockID) == 0 - 1 && old(this.available) == 0 && (old(this.initialized) == 1 || this.headless) ==> this.blockID == 0 - 1 && this.available == 0 && remaining == len(block)
+//@   loop 1 assume this.blockID <= 2000000000
+//@   loop 1 modifies this.available, this.consumed, this.blockID, this.buffers[*], block[*], this.ibs.rbitsI, this.ibs.ieof, this.ibs.aligned, this.ibs.ipos, "A!Int", "A!Iface"
+
+//@ func (*Reader) readHeader
+//@   mode int
+//@   props C01 C03 C08 C09 C10
+//@   opt calls may-panic
+//@   opt panics caught
+//@   requires this.repR0()
+//@   ensures this.headless || old(this.initialized) != 0 ==> err == nil && this.ibs.rbitsI == old(this.ibs.rbitsI) && this.blockSize == old(this.blockSize) && this.bufferThreshold == old(this.bufferThreshold) && this.nbInputBlocks == old(this.nbInputBlocks) && this.initialized == old(this.initialized)       #only-once
+//@   ensures err == nil && !this.headless ==> this.initialized == 1                #initialized-on-success
+//@   ensures err != nil ==> this.initialized == 0                                 #retry-after-failure
+//@   ensures this.repR0()                                                         #rep0
+//@   ensures err == nil && !this.headless && old(this.initialized) == 0 ==> 1024 <= this.blockSize && this.blockSize <= 1073741824 && this.blockSize % 16 == 0 && this.bufferThreshold == this.blockSize && 0 <= this.nbInputBlocks && this.nbInputBlocks <= 63     #validated-fields
+//@   ensures has(this.ctx, "from") <==> old(has(this.ctx, "from"))
+//@   ensures has(this.ctx, "to") <==> old(has(this.ctx, "to"))
+//@   ensures has(this.ctx, "from") ==> this.ctx["from"] == old(this.ctx["from"])
+//@   ensures has(this.ctx, "to") ==> this.ctx["to"] == old(this.ctx["to"])
+//@   modifies this.initialized, this.blockSize, this.bufferThreshold, this.entropyType, this.transformType, this.outputSize, this.nbInputBlocks, this.hasher32, this.hasher64, this.ctx[*], "MH!Int!Iface", "MV!Int!Iface", "A!Iface", this.ibs.rbitsI, this.ibs.ieof, this.ibs.aligned, this.ibs.ipos
